@@ -441,6 +441,36 @@ func genCases(in, out string, enum int, enumKeep float64, mutations, nrandom, va
 		o := sents[rng.Intn(len(sents))]
 		emit("trailing", hostile.Text(append(append([]gram.Tok{}, s.S...), o.S...)))
 	}
+	// ONE hostile text at a time: for every (owning rule, kind) of a value token, up to two statements that the
+	// semantic parser accepts with plain texts, and each hostile text of that kind at that position
+	type ctxKey struct{ own, k string }
+	used := map[ctxKey]int{}
+	det := &gram.Concretizer{} // deterministic plain texts
+	for _, s := range sents {
+		var todo []int
+		for i, t := range s.S {
+			if len(gram.HostileOptions(s.S, i)) > 0 && used[ctxKey{t.Own, t.K}] < 2 {
+				todo = append(todo, i)
+			}
+		}
+		if len(todo) == 0 {
+			continue
+		}
+		texts := det.Texts(s.S)
+		p, err := grammar.NewParser(grammar.SemanticBQL())
+		must(err)
+		if p.Parse(grammar.NewLLk(gram.Join(s.S, texts), 1), &semantic.Statement{}) != nil {
+			continue
+		}
+		for _, i := range todo {
+			used[ctxKey{s.S[i].Own, s.S[i].K}]++
+			for _, h := range gram.HostileOptions(s.S, i) {
+				tt := append([]string{}, texts...)
+				tt[i] = h
+				emit("one-hostile-token", gram.Join(s.S, tt))
+			}
+		}
+	}
 	var rec func(prefix []gram.Tok, depth int)
 	rec = func(prefix []gram.Tok, depth int) {
 		if depth < enum || enumKeep >= 1 || rng.Float64() < enumKeep {
